@@ -72,9 +72,12 @@ def run(ctx):
     ctx.cov.update({
         "traces_validated_against_impl": len(rows), "evaluations": nre,
         "distinct_nontrivial": sum(1 for c in rows if c["maps"]),
-        "rule": "%d runs: 5 writers (own /8 each: anchor /16 always present, /24 churn, writer 0 toggles 0.0.0.0/0) and 6 readers over a "
-                "filter prefilled to 150-250 slots so the list-to-maps switch happens under the readers; seeded dwell inside the "
-                "critical sections and in the half-migrated state; -race build; non-trivial = runs that crossed the switch" % len(rows),
+        "rule": "%d traces: switch-race trials (3 removers + the switching Add + 2 readers released together on a filter one Add away from "
+                "the list-to-maps switch), remove-race trials (2 readers looking up a range in a tight loop while it is removed, then probed "
+                "again) and churn runs: 5 writers (own /8 each: anchor /16 always present, churn over prefix lengths 17-32, writer 0 toggles "
+                "0.0.0.0/0) and 6 readers (4- and 16-byte addresses, following the ranges being updated) over a filter prefilled to 150-250 "
+                "slots so the switch happens under the readers; seeded dwell inside the critical sections and in the half-migrated state; "
+                "-race build; deadlock watchdog; non-trivial = traces that crossed the switch" % len(rows),
         "exhaustive": False, "events": nev, "lookups_judged": nre, "race_reports": races,
         "runs_crossing_switch": sum(1 for c in rows if c["maps"]),
         "lp_events": sum(1 for c in rows for e in c["evs"] if e["k"] == "lp"), "lp_conformance_drift": len(drift),
